@@ -42,6 +42,27 @@ def cases(rng, tier):
                 f.append("bytes differ from the reference encoder")
             return f
         yield Case("h%d" % i, lines, oracle=oracle, meta={"dist": {"kind": "history"}})
+        if t["slices"] and t["cols"]:
+            # an allocation failure while the table is built is part of the history too: whenever every call still
+            # reports success, what is written must be the canonical stream of the table that was asked for
+            vas = [j for j, l in enumerate(first) if l.startswith("va ")]
+            for j in rng.sample(vas, min(len(vas), 3)):
+                k = rng.choice([1, 2, 3, 4, 6, 9])
+                fl = ["strict"] + first[:j] + ["allocfail %d" % k] + first[j:] + ["epilogue"]
+                nfl = len(fl)
+
+                def oracle_f(c, nfl=nfl, ref=ref, k=k, what=first[j]):
+                    b = None
+                    for ln in range(2, nfl):
+                        if ln not in c.lines: return []                      # the script stopped at a failing call
+                        op_, pay_ = c.lines[ln]
+                        if op_ == "bytes": b = pay_; continue
+                        if op_ == "allocfail": continue
+                        if pay_.split(" ")[0] not in ("0", ""): return []   # a call reported the failure
+                    if b is not None and b.partition(" ")[2] != ref:
+                        return ["allocation %d after '%s' began failed, every call reported success, and the bytes written are not the canonical stream of the requested table" % (k, what[:40])]
+                    return []
+                yield Case("a%d/%d.%d" % (i, j, k), fl, oracle=oracle_f, compare=False, meta={"dist": {"kind": "alloc-failure-history"}})
     # the sample files: the reader's view re-written must reproduce the file
     files = sorted(glob.glob(os.path.join(os.environ.get("SBDF_REPO", "/repo"), "tests", "samples", "*.sbdf")))
     limit = {"quick": 200000, "thorough": 2000000, "search": 0}[tier]
